@@ -7,37 +7,12 @@ lookup_glyph_id, iterators), skrifa/src/charmap.rs.
 -/
 import FontVerif.Model.Cmap
 import FontVerif.Lemmas.Cmap
+import FontVerif.Lemmas.Cmap4
+import FontVerif.Lemmas.Cmap4Seg
+import FontVerif.Lemmas.Cmap4Top
 set_option linter.unusedVariables false
 namespace FontVerif.C08
 open FontVerif FontVerif.Cmap
-
-/-! ### the domain of the property -/
-
-/-- strictly ascending code points: what `from_mappings` hands to the subtable builders for a
-conflict-free input (sorted, deduplicated, each character once) -/
-def Ascending (m : Mapping) : Prop := m.Pairwise (fun a b => a.1 < b.1)
-
-/-- a conflict-free mapping in the property's domain: Unicode scalar range, U+FFFF excepted,
-glyph ids non-zero and 16 bit -/
-structure InDomain (m : Mapping) : Prop where
-  asc : Ascending m
-  cp : ∀ p ∈ m, p.1 ≤ 0x10FFFF ∧ p.1 ≠ 0xFFFF
-  gid : ∀ p ∈ m, 1 ≤ p.2 ∧ p.2 ≤ 0xFFFF
-
-theorem Ascending.ascFrom : ∀ (m : Mapping) (lb : Nat), Ascending m → (∀ p ∈ m, lb ≤ p.1) → AscFrom lb m := by
-  intro m
-  induction m with
-  | nil => intro _ _ _; trivial
-  | cons p rest ih =>
-    intro lb h hlb
-    have h' := List.pairwise_cons.1 h
-    exact ⟨hlb p (List.mem_cons_self ..), ih _ h'.2 (fun q hq => h'.1 q hq)⟩
-
-theorem InDomain.small {m : Mapping} (h : InDomain m) : Small m := by
-  intro p hp
-  have := h.cp p hp
-  have := h.gid p hp
-  omega
 
 /-! ### idDelta arithmetic is modulo 65536 -/
 
@@ -103,5 +78,137 @@ example : InDomain [(65, 5), (66, 6), (67, 9), (0x1F600, 10), (0x1F601, 11), (0x
   ⟨by unfold Ascending; decide, by decide, by decide⟩
 example : createFormat12 [(65, 5), (66, 6), (67, 9), (0x1F600, 10), (0x1F601, 11), (0x10FFFF, 12)]
     = some [(65, 66, 5), (67, 67, 9), (0x1F600, 0x1F601, 10), (0x10FFFF, 0x10FFFF, 12)] := by decide
+
+/-! ### format 4 -/
+
+/-- `Format4SegmentComputer::compute` always returns a valid segmentation of the BMP part of its
+input — for EVERY input list (no sortedness or range hypothesis): the segments tile the index
+range, each is a run of consecutive code points, and a segment that carries an `id_delta` has
+constant `gid − cp`.  (`SegsTile`/`SegOk` are defined in Lemmas/Cmap4.lean.) -/
+theorem segments_valid (m : Mapping) :
+    SegsTile (cpAt m.toArray) (gidAt m.toArray) 0 (bmpPrefix m).length (segments m) :=
+  segments_tile m
+
+/-- Round trip for ANY valid segmentation (robust against changes of the merging heuristics):
+if `create_format_4`, run on a valid segmentation `segs` of an in-domain mapping, returns a table,
+then `Cmap4::map_codepoint` on that table answers `some v` for code point `c` exactly when `(c, v)`
+is a BMP pair of the mapping — or `c` is U+FFFF, which the mandatory final segment maps to glyph 0.
+In particular every unmapped code point (and every code point above U+FFFF) gets `none`. -/
+theorem fmt4_lookup_any_segmentation (m : Mapping) (hd : InDomain m) (segs : List Seg)
+    (hv : SegsTile (cpAt m.toArray) (gidAt m.toArray) 0 (bmpPrefix m).length segs)
+    (t : Cmap4) (h : encode4 m segs = .ok (some t)) (c v : Nat) :
+    map4 t c = some v ↔ ((c, v) ∈ m ∧ c ≤ 0xFFFF) ∨ (c = 0xFFFF ∧ v = 0) := by
+  have hm := mapOk_of_inDomain m hd
+  have hne : segs ≠ [] := by
+    intro h0; subst h0
+    unfold encode4 at h
+    split at h
+    · cases h
+    · simp at h
+  rcases encode4_rows m segs (fun p hp => (hd.gid p hp).2) hne with htrap | ⟨rows, g, hok, hr⟩
+  · rw [htrap] at h; cases h
+  rw [hok] at h
+  injection h with h
+  injection h with h
+  subst h
+  rw [mem_iff_index m hd c v]
+  constructor
+  · intro hq
+    by_cases hc : c = 0xFFFF
+    · subst hc
+      rw [map4_sentinel hm hv hr] at hq
+      exact Or.inr ⟨rfl, (Option.some.inj hq).symm⟩
+    · by_cases hex : ∃ k, k < (bmpPrefix m).length ∧ cpAt m.toArray k = c
+      · obtain ⟨k, hk, hck⟩ := hex
+        rw [← hck, map4_mapped hm hv hr k hk] at hq
+        exact Or.inl ⟨k, hk, hck, Option.some.inj hq⟩
+      · rw [map4_unmapped hm hv hr c hc (fun k hk hck => hex ⟨k, hk, hck⟩)] at hq
+        cases hq
+  · rintro (⟨k, hk, hck, hgk⟩ | ⟨rfl, rfl⟩)
+    · rw [← hck, ← hgk]
+      exact map4_mapped hm hv hr k hk
+    · exact map4_sentinel hm hv hr
+
+/-- Round trip through `create_format_4` as implemented (segment computer + encoder) and
+`Cmap4::map_codepoint`: the mapped glyph for every mapped BMP character, glyph 0 for U+FFFF,
+`none` for everything else. -/
+theorem fmt4_lookup (m : Mapping) (hd : InDomain m) (t : Cmap4) (h : createFormat4 m = .ok (some t))
+    (c v : Nat) : map4 t c = some v ↔ ((c, v) ∈ m ∧ c ≤ 0xFFFF) ∨ (c = 0xFFFF ∧ v = 0) :=
+  fmt4_lookup_any_segmentation m hd (segments m) (segments_valid m) t h c v
+
+/-- mapped BMP characters: the mapped glyph -/
+theorem fmt4_lookup_mapped (m : Mapping) (hd : InDomain m) (t : Cmap4) (h : createFormat4 m = .ok (some t))
+    (c g : Nat) (hmem : (c, g) ∈ m) (hc : c ≤ 0xFFFF) : map4 t c = some g :=
+  (fmt4_lookup m hd t h c g).2 (Or.inl ⟨hmem, hc⟩)
+
+/-- unmapped characters (U+FFFF excepted): no glyph -/
+theorem fmt4_lookup_unmapped (m : Mapping) (hd : InDomain m) (t : Cmap4) (h : createFormat4 m = .ok (some t))
+    (c : Nat) (hc : c ≠ 0xFFFF) (hno : ∀ v, (c, v) ∉ m) : map4 t c = none := by
+  cases hq : map4 t c with
+  | none => rfl
+  | some v =>
+    rcases (fmt4_lookup m hd t h c v).1 hq with ⟨h1, _⟩ | ⟨h1, _⟩
+    · exact absurd h1 (hno v)
+    · exact absurd h1 hc
+
+/-- "Returns `None` if none of the input chars are in the BMP" — and only then -/
+theorem fmt4_none_iff (m : Mapping) (hd : InDomain m) :
+    createFormat4 m = .ok none ↔ ∀ p ∈ m, p.1 > 0xFFFF := by
+  have hsz : segments m = [] ↔ bmpPrefix m = [] := by
+    unfold segments
+    rw [computeSegs_nil_iff]
+    simp
+  have hpre : bmpPrefix m = [] ↔ ∀ p ∈ m, p.1 > 0xFFFF := by
+    rw [List.eq_nil_iff_forall_not_mem]
+    constructor
+    · intro h p hp
+      have := h p
+      rw [mem_bmpPrefix m hd.asc] at this
+      rcases Nat.lt_or_ge 0xFFFF p.1 with h' | h'
+      · exact h'
+      · exact absurd ⟨hp, h'⟩ this
+    · intro h p hp
+      rw [mem_bmpPrefix m hd.asc] at hp
+      have := h p hp.1
+      omega
+  rw [← hpre, ← hsz]
+  constructor
+  · intro h
+    by_cases hne : segments m = []
+    · exact hne
+    · rcases encode4_rows m (segments m) (fun p hp => (hd.gid p hp).2) hne with htrap | ⟨rows, g, hok, _⟩
+      · rw [createFormat4, htrap] at h; cases h
+      · rw [createFormat4, hok] at h; cases h
+  · intro h
+    unfold createFormat4 encode4
+    have e1 : (m.any fun p => decide (p.2 > 0xFFFF)) = false := by
+      rw [List.any_eq_false]
+      intro p hp
+      have := (hd.gid p hp).2
+      simp; omega
+    simp [e1, h]
+
+/-- building succeeds: for an in-domain mapping with between 1 and 6551 BMP characters
+(10·n + 24 ≤ 65535: what a 16-bit format-4 length can always hold) `create_format_4` returns a
+table, and that table's `compute_length` fits 16 bits -/
+theorem fmt4_build_succeeds (m : Mapping) (hd : InDomain m) (hne : bmpPrefix m ≠ [])
+    (hn : (bmpPrefix m).length ≤ 6551) : ∃ t, createFormat4 m = .ok (some t) ∧ t.lengthFits = true := by
+  have hsegs : segments m ≠ [] := by
+    unfold segments
+    rw [Ne, computeSegs_nil_iff]
+    simpa using hne
+  exact encode4_ok m (segments m) _ (fun p hp => (hd.gid p hp).2) (segments_valid m) hn hsegs
+
+/-- non-vacuity: the doc-comment example of `should_combine` (three segments merged into one
+range-offset segment), a delta segment whose delta does not fit `i16`, a lone character, and a
+supplementary character that format 4 ignores -/
+example : InDomain [(1, 3), (2, 1), (3, 4), (4, 5), (5, 6), (6, 7), (7, 8), (8, 2), (9, 9),
+    (32, 40000), (33, 40001), (0x5000, 7), (0x1F600, 10)] :=
+  ⟨by unfold Ascending; decide, by decide, by decide⟩
+example : createFormat4 [(1, 3), (2, 1), (3, 4), (4, 5), (5, 6), (6, 7), (7, 8), (8, 2), (9, 9),
+    (32, 40000), (33, 40001), (0x5000, 7), (0x1F600, 10)] =
+    .ok (some { endCode := #[9, 33, 0x5000, 0xFFFF], startCode := #[1, 32, 0x5000, 0xFFFF],
+                idDelta := #[0, -25568, -20473, 1], idRangeOffsets := #[8, 0, 0, 0],
+                glyphIdArray := #[3, 1, 4, 5, 6, 7, 8, 2, 9] }) := by decide
 
 end FontVerif.C08
